@@ -1,5 +1,6 @@
-import FxVerif.Proofs.C13
+import FxVerif.Proofs.C13Fits
 import FxVerif.Model.C07
+import FxVerif.Proofs.C07GovFit
 /-!
 # C07 — block processing never halts: the crosschain `EndBlocker` half
 
@@ -17,19 +18,25 @@ open FxVerif.Model.C13 FxVerif.Gen.C13 FxVerif.Proofs.C13 FxVerif.Model.C07 FxVe
 oracles that started later with `>`, slashes on a *missing* confirm, and the window comparisons are the expected ones -/
 theorem slashing_code_facts : SlashCodeOk := by decide
 
+/-- obligation over the regenerated shape of `isNeedOracleSetRequest`: the latest oracle set is nil-tested before the
+power-difference step dereferences it, and the float64 difference is rendered with a fixed number of decimals (`%.8f`)
+that `LegacyNewDecFromStr` always accepts — so the `panic` after the parse cannot fire -/
+theorem refresh_code_facts : RefreshCodeOk := by decide
+
 /-- obligation over the regenerated inventory: every panic / Must* / partial-arithmetic site reachable from the crosschain
 end-blocker is one the model accounts for -/
 theorem sites_covered : endBlockerSites.all isAccounted = true := by decide
 
-/-- the three sites that can fire are exactly the ones with an explicit outcome in the model -/
+/-- the sites that can fire are exactly the ones with an explicit outcome in the model -/
 theorem modelled_sites :
     (accounted.filter (fun a => a.2 == Treatment.modelled)).map (·.1.what) =
-      ["sdk.MustAccAddressFromBech32", "Uint64", "QuoUint64"] := by decide
+      ["sdk.MustAccAddressFromBech32", "Uint64", "QuoUint64",
+       "panic(fmt.Errorf(\"covert power diff to dec err, powerDiff: %"] := by decide
 
 /-- **the crosschain end-blocker completes in every state** (reachable or not) whose total oracle power fits `uint64`:
 any pending oracle sets / batches / bridge calls, any confirms, any ages past the signed window, any cursors -/
 theorem endBlock_total (s : State) (h : Nat) (hf : PowerFits s) : ∃ s', endBlock s h = .ok s' :=
-  FxVerif.Proofs.C13.endBlock_total slashing_code_facts s h hf
+  FxVerif.Proofs.C13.endBlock_total slashing_code_facts refresh_code_facts s h hf
 
 /-- … in particular in every state reachable through the C13 op alphabet (bond, delegate, re-delegate, edit, withdraw,
 governance updates, unbond, object creation, confirms incl. oracles that stop confirming, blocks, validator slashing) -/
@@ -37,6 +44,28 @@ theorem endBlock_total_reachable (p : Params) (bals : Store Nat Nat) (ops : List
     (hf : PowerFits (run (init p bals) ops)) :
     ∃ s', endBlock (run (init p bals) ops) (run (init p bals) ops).height = .ok s' :=
   endBlock_total _ _ hf
+
+/-- only the ONLINE oracles enter the `uint64` sum: the hypothesis can be weakened to their power -/
+theorem endBlock_total_online (s : State) (h : Nat) (hf : OnlinePowerFits s) : ∃ s', endBlock s h = .ok s' :=
+  FxVerif.Proofs.C13.endBlock_total_online slashing_code_facts refresh_code_facts s h hf
+
+/-- **no environment hypothesis on the state**: in every state reachable through the op alphabet the end-blocker completes,
+provided the PARAMETERS satisfy `MaxOracleSize × (threshold × multiple / powerReduction) < 2^64` (`ParamsFit`; e.g. the
+default 10 000 FX × 10 / 10^18 gives 10^7 ≪ 2^64).  Proof: online oracles are on the governance list, which has at most
+`MaxOracleSize` entries, records have distinct addresses and every recorded stake is at most `threshold × multiple`
+(invariant `FitInv`, by induction over the op list; the guards it needs are the regenerated `guard_code_facts`) -/
+theorem endBlock_total_reachable_params (p : Params) (bals : Store Nat Nat) (ops : List Op) (hp : ParamsFit p) (h : Nat) :
+    ∃ s', endBlock (run (init p bals) ops) h = .ok s' := by
+  have hg : GuardCodeOk := by decide
+  have hi := run_fit slashing_code_facts hg ops _ (init_fit p bals)
+  have hpar : (run (init p bals) ops).p = p := run_params slashing_code_facts ops _
+  exact endBlock_total_online _ h (onlineFits_of_fit _ hi (by rw [hpar]; exact hp))
+
+/-- … so no reachable history can make a block panic in the crosschain end-blocker -/
+theorem block_never_panics_reachable (p : Params) (bals : Store Nat Nat) (ops : List Op) (hp : ParamsFit p) (dt : Nat) :
+    (block (run (init p bals) ops) dt).2 = .ok := by
+  obtain ⟨s', hs'⟩ := endBlock_total_reachable_params p bals ops hp (run (init p bals) ops).height
+  simp [block, hs']
 
 /-- a block never panics: the `block` op answers `ok` -/
 theorem block_never_panics (s : State) (dt : Nat) (hf : PowerFits s) : (block s dt).2 = .ok := by
@@ -54,10 +83,98 @@ theorem endBlock_keeps_powerFits (s : State) (h : Nat) (s' : State) (he : endBlo
   have hr := endBlock_rel slashing_code_facts s h s' he
   exact powerFits_of_recs s s' h hr.core.p hr.recs hf
 
+/-! ## gov half: the proposal-tally path
+
+`x/gov/abci.go: EndBlocker` returns whatever `Keeper.Tally` returns; an error or a panic there halts the chain.  The tally
+arithmetic is modelled in `Model/C07Gov.lean`; its decision tail is the program `Gen.C07.tallyTail` REGENERATED from
+`x/gov/keeper/tally.go` on every run.  (The queue / deposit half of the gov end-blocker is `gov_endblock_*` in Props/C15.) -/
+
+open FxVerif.Model.C07Gov FxVerif.Proofs.C07Gov in
+/-- obligation over the regenerated tail of `Tally`: zero bonded tokens is tested before the turnout division, "everyone
+abstained" (`total − abstain = 0`) is tested before the veto and threshold divisions, in this order -/
+theorem tally_tail_code_facts : tallyTail = FxVerif.Proofs.C07Gov.expectedTail := by decide
+
+/-- obligation over the regenerated inventory of `.Quo(` calls in `Tally`: exactly the five divisions the model has -/
+theorem tally_quo_sites_covered : tallyQuoDivisors = modelledQuoDivisors := by decide
+
+/-- obligation over the regenerated inventory of error-return / panic sites of the gov end-blocker and `Tally` -/
+theorem gov_sites_covered : govSites.all isGovAccounted = true := by decide
+
+open FxVerif.Model.C07Gov FxVerif.Proofs.C07Gov in
+/-- **the tally completes for every combination of votes, delegations, validators and parameters**: any number of voters
+with any valid weighted votes (incl. all-abstain, zero-power voters, dust delegations), any bonded tokens (incl. zero), any
+quorum / veto / threshold values — no `Quo` divides by zero.  Hypotheses are facts of the staking state, not of the votes:
+bonded validators have positive delegator shares (`InOk`), and a validator's voting delegators do not hold more shares
+than the validator has (`DeductionsFit`) -/
+theorem gov_tally_total (i : TallyIn) (hi : InOk i) (hd : DeductionsFit i) : ∃ o, tally i = .ok o :=
+  tally_total_of_tail tally_tail_code_facts i hi hd
+
+open FxVerif.Model.C07Gov FxVerif.Proofs.C07Gov in
+/-- … with the staking hypothesis stated on the tally INPUT only (`DelegationsFit`: for each bonded validator the shares
+of its voting delegators add up to at most its delegator shares — a validator's shares ARE the sum of its delegations'
+shares).  The harness evaluates `InOk` / `DelegationsFit` on the real staking state of every tally it drives. -/
+theorem gov_tally_total_input (i : TallyIn) (hi : InOk i) (hd : DelegationsFit i) : ∃ o, tally i = .ok o :=
+  gov_tally_total i hi (deductionsFit_of_input i hd)
+
+open FxVerif.Model.C07Gov FxVerif.Proofs.C07Gov in
+/-- with no voters at all the tally completes whatever the staking state is (not even `InOk` is needed for validators
+that did not vote) -/
+theorem gov_tally_total_no_votes (i : TallyIn) (hv : i.voters = []) (hn : ∀ v ∈ i.vals, v.vote = []) :
+    ∃ o, tally i = .ok o := by
+  have hskip : tallySkipsNonVotingValidators = true := by decide
+  have hfold : ∀ (l : List GVal) (a : Acc), (∀ v ∈ l, v.vote = []) → foldE validatorStep a l = .ok a := by
+    intro l
+    induction l with
+    | nil => intro a _; rfl
+    | cons v vs ih =>
+      intro a h
+      have hv0 : v.vote = [] := h v (by simp)
+      simp only [foldE, validatorStep, hskip, hv0, List.isEmpty_nil, Bool.and_self, if_true]
+      exact ih a (fun x hx => h x (by simp [hx]))
+  obtain ⟨r, hr⟩ := runTail_expected_total i {} 0 (by decide) (by decide)
+  unfold tally
+  rw [hv]
+  simp only [foldE]
+  rw [hfold i.vals _ hn]
+  simp only
+  rw [tally_tail_code_facts]
+  have hr' : runTail { i := i, res := ({ vals := i.vals } : Acc).res, total := ({ vals := i.vals } : Acc).total } expectedTail = .ok r := hr
+  rw [hr']
+  exact ⟨_, rfl⟩
+
+-- non-vacuity (gov): two validators of 100 tokens; both abstain with full weight → quorum reached, fails, nothing burned;
+-- one yes + one abstain → passes
+section
+open FxVerif.Model.C07Gov FxVerif.Proofs.C07Gov
+def oneE : Int := 10 ^ 18
+def vEx (o : Opt) : GVal := { tokens := 100, shares := 100 * oneE, vote := [(o, oneE)] }
+def iEx (a b : Opt) : TallyIn :=
+  { bonded := 200, quorum := 4 * 10 ^ 17, vetoThr := 334 * 10 ^ 15, thr := 5 * 10 ^ 17, burnQ := false, burnV := true,
+    vals := [vEx a, vEx b],
+    voters := [{ opts := [(a, oneE)], dels := [(0, 100 * oneE)] }, { opts := [(b, oneE)], dels := [(1, 100 * oneE)] }] }
+example : InOk (iEx .abstain .abstain) ∧ DelegationsFit (iEx .abstain .abstain) := by
+  refine ⟨⟨?_, ?_⟩, ?_, ?_⟩
+  · intro v hv; simp [iEx, vEx] at hv; subst hv; refine ⟨by decide, by decide, ?_, by decide⟩; intro e he; simp at he; subst he; decide
+  · intro vt hvt; simp [iEx] at hvt
+    rcases hvt with h | h <;> subst h <;> refine ⟨⟨?_, by decide⟩, ?_⟩ <;> intro e he <;> simp at he <;> subst he <;> decide
+  · intro v hv; simp [iEx, vEx] at hv; subst hv; rfl
+  · intro j v hj
+    match j with
+    | 0 => simp [iEx, vEx] at hj; subst hj; decide
+    | 1 => simp [iEx, vEx] at hj; subst hj; decide
+    | n + 2 => simp [iEx] at hj
+example : (match tally (iEx .abstain .abstain) with | .ok o => some (o.passes, o.burn, o.res.abstain) | .error _ => none) =
+    some (false, false, 200 * oneE) := by decide
+example : (match tally (iEx .yes .abstain) with | .ok o => some (o.passes, o.burn) | .error _ => none) = some (true, false) := by decide
+example : (match tally (iEx .veto .abstain) with | .ok o => some (o.passes, o.burn) | .error _ => none) = some (false, true) := by decide
+end
+
 -- non-vacuity: an aged, unconfirmed bridge call with an online oracle that did not confirm — the end-blocker slashes it
 def pEx : Params := ⟨100, 10, 8 * 10 ^ 17, 2, 10, 100, 10 ^ 17, 2⟩
 def sEx : State := run (init pEx [(0, 5000)]) [.gov [0], .bond 0 0 0 0 100, .mkcall, .block 5, .block 5]
 example : PowerFits sEx := by decide
+example : ParamsFit pEx := by decide
+example : ParamsFit ⟨10000 * 10 ^ 18, 10, 8 * 10 ^ 17, 20000, 10 ^ 18, 1814400, 10 ^ 17, 20⟩ := by decide  -- mainnet-like
 example : sEx.height = 3 ∧ (sEx.calls.map (·.height)) = [1] := by decide
 example : ((block sEx 5).1.oracles.map (fun p => (p.2.online, p.2.slashTimes))) = [(false, 1)] ∧ (block sEx 5).2 = .ok := by decide
 example : endBlockerSites.length ≥ 20 := by decide
